@@ -258,6 +258,14 @@ def literal_cases(tier, rng):
         yield text, "S:%r" % to_f32(val)
         yield text + "#", "D:%r" % val
         yield "-" + text, "S:%r" % to_f32(-val)
+    # literals that no type can hold must be rejected, never become infinity
+    yield "1" + "0" * 45 + ".5", "REJECT_OVERFLOW"
+    yield "9" * 40 + ".25", "REJECT_OVERFLOW"
+    yield "1" + "0" * 400, "REJECT_OVERFLOW"
+    yield "1" + "0" * 400 + ".5#", "REJECT_OVERFLOW"
+    # the largest ones that do fit
+    yield "3" + "0" * 38 + ".5", "S:%r" % to_f32(float("3" + "0" * 38 + ".5"))
+    yield "1" + "0" * 300, "D:%r" % float("1" + "0" * 300)
 
 
 def norm_lit(s):
@@ -382,6 +390,10 @@ def shard(ctx):
             r.evaluations += 1
             r.count("literals", group="parts")
             r.nontrivial.add(h64("lit" + t))
+            if exp == "REJECT_OVERFLOW":
+                if not (isinstance(g, str) and g.startswith("ERR:('parse_error', 'Overflow'")):
+                    r.fail("C10:literal:out_of_range_not_rejected", "literal %s...(%d characters) is beyond every type but gives %s" % (t[:12], len(t), str(g)[:80]), {"literal": t, "expected": exp})
+                continue
             g = norm_lit(g)
             exp = norm_lit(exp)
             if g == exp:
